@@ -954,19 +954,23 @@ def exact_boundary_model(rng, target, variant, nr=None, dlpoly=False, shared=Fal
   return model, k
 
 
-NEAR_ROW_GRIDS = {False: [(8.0, 1601), (10.0, 101), (10.0, 1001), (12.5, 251), (6.0, 601), (7.3, 74), (9.9, 991), (5.0, 51), (8.0, 801), (12.0, 1201)],
+NEAR_ROW_GRIDS = {False: [(8.0, 1601), (9.99, 58), (10.0, 101), (10.0, 1001), (12.5, 251), (6.0, 601), (7.3, 74), (9.9, 991), (5.0, 51), (8.0, 801), (12.0, 1201)],
                   True: [(10.0, 1004), (8.0, 804), (12.0, 2404), (6.5, 264), (10.0, 504), (7.5, 1504), (9.0, 904), (15.0, 3004)]}
 NEAR_ROW_VARIANTS = ["below_row", "above_row", "last_row_at_cutoff", "table_ends_at_cutoff"]
 
 
-def near_row_boundary_model(rng, target, variant, which, dlpoly=False):
+# grids on which (nr-1)*cutoff/(nr-1) - multiply first, then divide - does not give the cutoff back
+MULDIV_GRIDS = [(9.99, 58), (7.3, 38), (7.3, 73), (9.99, 116), (7.3, 100), (9.99, 30), (7.3, 145), (9.99, 231)]
+
+
+def near_row_boundary_model(rng, target, variant, which, dlpoly=False, grids=None):
   """Decimal grids (the step is NOT exact in doubles).  A discontinuity 8 ulps below / above an upper row k: whichever
   rounding of k*step a writer uses, row k is on a definite side - unless its separations drift (a running sum
   r += step is tens of ulps off after a few hundred rows).  LAMMPS only: a discontinuity just above the cutoff, or
   table data ending exactly AT the cutoff - the last row is the declared 'hi' itself and belongs to the inner side.
   Returns (model, k): row k (1-based) is judged strictly."""
   import math
-  grids = NEAR_ROW_GRIDS[bool(dlpoly)]
+  grids = grids or NEAR_ROW_GRIDS[bool(dlpoly)]
   cutoff, nr = grids[which % len(grids)]
   nrows = nr if dlpoly else nr - 1
   step = cutoff / (nr - 4) if dlpoly else cutoff / (nr - 1)
